@@ -669,6 +669,37 @@ Proof.
   destruct H as (H1 & H2 & H3). unfold yields in *. cbn. auto.
 Qed.
 
+(* what `sync` / `readable` expose at `now` is exactly the number of accepted,
+   not yet yielded entries whose scheduled instant has been reached *)
+Fixpoint tlast (t : N) (es : list rv) : N :=
+  match es with
+  | [] => t
+  | e :: es' => tlast (match ev_time e with Some t' => t' | None => t end) es'
+  end.
+
+Lemma rrun_readydue es : forall r fs r' fs' os t,
+  ReadyDue r t -> mono t es -> rrun r fs es = (r', fs', os) -> ReadyDue r' (tlast t es).
+Proof.
+  induction es as [|e es IH]; intros r fs r' fs' os t RD M H; cbn in H.
+  - inversion H; subst. exact RD.
+  - destruct (rstep A r fs e) as [[r1 fs1] o] eqn:S.
+    destruct (rrun r1 fs1 es) as [[r2 fs2] os2] eqn:R. inversion H; subst.
+    cbn in M.
+    assert (L : match ev_time e with Some t' => t <= t' | None => True end) by (destruct (ev_time e); tauto).
+    destruct (rstep_timely _ _ _ _ _ _ _ RD L S) as [_ RD1].
+    cbn. eapply IH; [exact RD1| |exact R]. destruct (ev_time e); tauto.
+Qed.
+
+Lemma visible_count_lemma r t now :
+  ReadyDue r t -> t <= now ->
+  ready_cq_count r now = N.of_nat (length (filter (due now) (live r))).
+Proof.
+  intros RD L. unfold ready_cq_count, live. rewrite filter_app, app_length.
+  rewrite (length_filter_all (due now) (ready r)).
+  - lia.
+  - eapply Forall_impl; [|exact RD]. intros c Hc. cbv beta in Hc. unfold due. apply N.leb_le. lia.
+Qed.
+
 (* ---- push ---- *)
 
 Definition SqOk (r : ring) : Prop := N.of_nat (length (sq r)) <= depth r.
